@@ -8,36 +8,82 @@ From Coq Require Import ZArith List String Bool Lia.
 Import ListNotations.
 Require Import Verif.lib.PyLite Verif.gen.BananaGen Verif.gen.SlicersGen Verif.lib.Token Verif.lib.TokenProofs
         Verif.lib.Obj Verif.lib.ObjProofs Verif.lib.ObjDefer Verif.lib.ObjDeferProofs
-        Verif.lib.ObjChunks Verif.lib.ObjVocab Verif.lib.ObjCanon Verif.lib.SendHeap Verif.lib.SendHeapProofs Verif.lib.SendHeapE2E
-        Verif.lib.ObjKeepalive Verif.lib.ObjKeepaliveProofs.
+        Verif.lib.ObjChunks Verif.lib.ObjVocab Verif.lib.ObjVocabRun Verif.lib.ObjCanon Verif.lib.SendHeap Verif.lib.SendHeapProofs Verif.lib.SendHeapSharing Verif.lib.SendHeapE2E
+        Verif.lib.ObjKeepalive Verif.lib.ObjKeepaliveProofs Verif.lib.ObjGuard Verif.lib.ObjGuardProofs.
 Local Open Scope Z_scope.
 
 (* "Any object graph built from the supported pass-by-value types ... including graphs with shared sub-objects and
    reference cycles, arrives at the other end as a graph that is equal in value and type to the one sent and has the
-   same sharing/cycle structure": for EVERY well-formed term (any nesting depth, ints of any magnitude, bool vs int,
+   same sharing/cycle structure": for EVERY term inside the guard (any nesting depth, ints of any magnitude, bool vs int,
    bytes vs text, list vs tuple vs set vs frozenset vs dict vs Copyable, back-references incl. a container inside
    itself, nested call scopes) the receiver rebuilds exactly the denoted graph: same node numbers, same kinds, same
-   children, same pointers.  Guard wf_obj_wide = every reference resolves in its scope, dict / Copyable shapes, and NOT the
-   known-defective region (a Copyable attribute value / dict key that refers to a tuple, frozenset or Copyable still being
-   built: C01_refuted_* below).  Cycles through nested tuples (l = []; t = (l,); l.append((t,))) are inside the guard.
+   children, same pointers.
+   GUARD (review-2 repair; lib/ObjGuard.v): wf_obj_t = wf_obj_wide (every reference resolves in its scope, dict / Copyable shapes)
+   AND dsafe: walking the term the way the unslicers do, NO value that is a Deferred reaches a Copyable attribute / a dict key /
+   the root / a call scope, and nothing is left pending at the end.  A value is a Deferred when it is a reference to a tuple /
+   frozenset / Copyable that has not completed (still open, or closed and pending) or an inline tuple / frozenset that closes with
+   a placeholder left -- TRANSITIVELY.  The guard of earlier rounds (wf_obj_wide alone) saw only a DIRECT reference to an
+   ancestor and admitted Python graphs the code refuses (c = C(); T = (c,); c.x = (T,)): C01_old_guard_refuted below.  The
+   excluded region is the known-finding region incomplete-tuple-into-copyable / -as-dict-key plus terms no Python graph has
+   (immutables that wait for each other).  Cycles through nested tuples (l = []; t = (l,); l.append((t,))) are inside the guard.
+   WEAKER THAN WANTED, stated openly: `unslice` is the POINTER machine (a reference to a container still being built is a pointer);
+   outside the guard it is laxer than the code.  That the Deferred-level receiver `dunslice` (which refuses where the code refuses)
+   delivers on every term of the guard is proved only in the bounded-exhaustive form C01_guard_exact_on_small_terms and
+   evaluated per generated case; see (b) below.
    `slice` acts on canonical terms; that it is what the real slicer stack emits is the theorem C01_sender_machine below. *)
-Theorem C01_slice_unslice : forall scoped n t, wf_obj_wide scoped n t = true ->
+Theorem C01_slice_unslice : forall scoped n t, wf_obj_t scoped n t = true ->
   unslice scoped n (slice n t) = Some (heap_of n t, [val_of n t]).
-Proof. exact slice_unslice_wide. Qed.
+Proof. exact slice_unslice_t. Qed.
 Print Assumptions C01_slice_unslice.
 
 (* the same for a sequence of top-level objects (successive calls/answers; several objects on one storage Banana) *)
-Theorem C01_slice_unslice_list : forall scoped n ts v, wf_list_wide scoped [] [] n ts = Some v ->
+Theorem C01_slice_unslice_list : forall scoped n ts, wf_list_t scoped n ts = true ->
   unslice scoped n (slice_list n ts) = Some (heap_list n ts, vals_list n ts).
-Proof. exact slice_unslice_list_wide. Qed.
+Proof. exact slice_unslice_list_t. Qed.
 Print Assumptions C01_slice_unslice_list.
 
-(* the general form: in ANY admissible receiver state (any stack of open unslicers, any tables) the tokens of t are
-   consumed exactly and leave `adv st ..` *)
-Theorem C01_run_slice : forall t n sc vis imm vis' st, wf_wide sc vis imm n t = Some vis' -> okst sc vis imm n st ->
+(* the general form: in ANY admissible receiver state (any stack of open unslicers whose open immutables are among imm, any
+   tables, no closed immutable pending) the tokens of t are consumed exactly and leave `adv st ..` *)
+Theorem C01_run_slice : forall t n sc vis imm vis' w st, wf_wide sc vis imm n t = Some vis' -> dsim imm [] n t = Some (w, None) ->
+  okst sc vis imm n st ->
   run (slice n t) st = Some (adv st [val_of n t] (regs_of n t) (heap_of n t) (opens t)).
-Proof. exact run_slice_wide. Qed.
+Proof. exact run_slice_t. Qed.
 Print Assumptions C01_run_slice.
+
+(* THE GUARD OF EARLIER ROUNDS IS REFUTED (review 2): g1 (c = C(); T = (c,); c.x = (T,)), g4 (L = []; A = (L,); B = (A,); c.x = B;
+   L.extend([B, c])) and g_key (c.d = {(T,): 1}) are Python object graphs; wf_obj_wide admits them, the pointer machine delivers
+   them, the Deferred-level receiver refuses them (outcome 1) exactly where the code raises (replayed: AssertionError in
+   RemoteCopyUnslicer.receiveChild / BananaError 'incomplete object as dictionary key'; harness witnesses
+   tuple-copyable-inline-tuple / list-pending-tuple-copyable / tuple-copyable-dictkey-inline); the transitive guard excludes them. *)
+Theorem C01_old_guard_refuted :
+  (wf_obj_wide true 0 g1 = true /\ unslice true 0 (slice 0 g1) = Some (heap_of 0 g1, [val_of 0 g1]) /\
+   doutcome true 0 (slice 0 g1) = 1 /\ wf_obj_t true 0 g1 = false) /\
+  (wf_obj_wide true 0 g4 = true /\ unslice true 0 (slice 0 g4) = Some (heap_of 0 g4, [val_of 0 g4]) /\
+   doutcome true 0 (slice 0 g4) = 1 /\ wf_obj_t true 0 g4 = false) /\
+  (wf_obj_wide true 0 g_key = true /\ unslice true 0 (slice 0 g_key) = Some (heap_of 0 g_key, [val_of 0 g_key]) /\
+   doutcome true 0 (slice 0 g_key) = 1 /\ wf_obj_t true 0 g_key = false).
+Proof. exact old_guard_refuted. Qed.
+Print Assumptions C01_old_guard_refuted.
+(* inside the guard (non-vacuity): deferred completion through nested tuples, a reference to a closed pending tuple, two
+   callbacks on one Deferred, frozensets in a cycle through a Copyable (held by a LIST attribute), two calls on a Broker *)
+Theorem C01_guard_examples :
+  (wf_obj_t true 0 abl = true /\ dunslice true 0 (slice 0 abl) = Some (heap_of 0 abl, [val_of 0 abl])) /\
+  (wf_obj_t true 0 amkj = true /\ dunslice true 0 (slice 0 amkj) = Some (heap_of 0 amkj, [val_of 0 amkj])) /\
+  (wf_obj_t true 0 tdl = true /\ dunslice true 0 (slice 0 tdl) = Some (heap_of 0 tdl, [val_of 0 tdl])) /\
+  (wf_obj_t true 0 frozen_late = true /\ dunslice true 0 (slice 0 frozen_late) = Some (heap_of 0 frozen_late, [val_of 0 frozen_late])) /\
+  wf_list_t false 0 [OCont (CScope [99; 97; 108; 108]) [OInt 1; OList [ORef 1]]; OCont (CScope [99; 97; 108; 108]) [OInt 2; OTuple [OList [ORef 5]]]] = true.
+Proof. exact ex_inside_guard. Qed.
+Print Assumptions C01_guard_examples.
+(* the guard is EXACT with respect to the Deferred-level receiver on every term of a small grammar (21840 terms: list / tuple /
+   frozenset / dict / Copyable with one or two children, references to any of the first four OPEN numbers, depth <= 3): on every
+   term the old guard admits, the new guard holds IFF the Deferred-level receiver delivers, and then it delivers the denoted
+   graph.  Bounded-exhaustive (vm_compute), not the general progress theorem. *)
+Theorem C01_guard_exact_on_small_terms :
+  forallb agree small_family = true /\
+  (2000 <= Z.of_nat (List.length (filter (wf_obj_wide true 0) small_family))) /\
+  (100 <= Z.of_nat (List.length (filter (fun t => wf_obj_wide true 0 t && negb (wf_obj_t true 0 t)) small_family))).
+Proof. exact guard_exact_on_small_terms. Qed.
+Print Assumptions C01_guard_exact_on_small_terms.
 
 (* THE SENDER AS A MACHINE (lib/SendHeap.v).  A Python-like heap: object id -> kind + children (atoms or object ids: arbitrary
    sharing and cycles); `send_heap` = Banana.produce over the slicer stack: the top slicer's iterator, sendToken for
@@ -54,6 +100,44 @@ Theorem C01_sender_machine_unique : forall h scoped n q fuel fuel' toks os,
   send_heap fuel h scoped n q = Some toks -> canon_of fuel' h scoped n q = Some os -> toks = slice_list n os.
 Proof. exact send_heap_unique. Qed.
 Print Assumptions C01_sender_machine_unique.
+(* SHARING RELATIVE TO THE PYTHON HEAP (review 2: the two theorems above compare the machine with a descent that uses the same
+   tables, so a registerRefID that forgets passed them).  (i) The first encounter of a heap object in a scope emits a container of
+   the object's kind with one child term per item, the canonical terms of its items in order; (ii) a tracked object sliced
+   while some scope is on the stack is recorded under ITS OWN OPEN number; (iii) whatever is sliced afterwards (any value v, any
+   fuel), every later encounter of that object in the scope is `reference` to that very number: the same heap object is never
+   sliced twice in one scope.  (By C01_sender_machine_unique the machine's tokens are the tokens of these terms.)
+   Left open: that two DIFFERENT heap objects never receive the same number (true because the OPEN counter only increases;
+   not stated as a theorem) and the receiver-side composition "sender heap ~ receiver graph" as one isomorphism statement. *)
+Theorem C01_sender_first_encounter_is_the_object : forall h fu scs n oid nd t n' scs',
+  scopes_lookup scs oid = None -> sfind oid h = Some nd ->
+  bcanon (S fu) h scs n (SObj oid) = Some (t, n', scs') ->
+  exists os scs3,
+    t = OCont (sn_kind nd) os /\
+    bcanon_list fu h (let scs1 := if tracked (sn_kind nd) then scopes_register scs oid n else scs in
+                      if is_scope (sn_kind nd) then [] :: scs1 else scs1) (n + 1) (sn_items nd) = Some (os, n', scs3) /\
+    List.length os = List.length (sn_items nd).
+Proof. exact first_encounter_is_the_object. Qed.
+Print Assumptions C01_sender_first_encounter_is_the_object.
+Theorem C01_sender_sliced_object_is_registered : forall h fuel scs n oid nd t n' scs',
+  scs <> [] -> sfind oid h = Some nd -> tracked (sn_kind nd) = true ->
+  bcanon fuel h scs n (SObj oid) = Some (t, n', scs') ->
+  exists k, scopes_lookup scs' oid = Some k /\ (scopes_lookup scs oid = None -> k = n).
+Proof. exact sliced_object_is_registered. Qed.
+Print Assumptions C01_sender_sliced_object_is_registered.
+Theorem C01_sender_same_object_never_sliced_twice : forall h f1 scs n oid nd t n1 scs1,
+  scs <> [] -> sfind oid h = Some nd -> tracked (sn_kind nd) = true ->
+  bcanon f1 h scs n (SObj oid) = Some (t, n1, scs1) ->
+  forall f2 v m t2 m2 scs2, bcanon f2 h scs1 m v = Some (t2, m2, scs2) ->
+  forall f3 m3, exists k, bcanon (S f3) h scs2 m3 (SObj oid) = Some (ORef k, m3 + 1, scs2) /\ (scopes_lookup scs oid = None -> k = n).
+Proof. exact same_object_never_sliced_twice. Qed.
+Print Assumptions C01_sender_same_object_never_sliced_twice.
+(* non-vacuity / the mutant's witness: s = [1]; [s, s] through a storage Banana is [[1], reference 0], on the descent and on the machine *)
+Theorem C01_sender_shared_twice_example :
+  let h := [(7, {| sn_kind := CList; sn_items := [SInt 1] |})] in
+  canon_of 5 h true 0 [SObj 7; SObj 7] = Some [OList [OInt 1]; ORef 0] /\
+  send_heap 50 h true 0 [SObj 7; SObj 7] = Some (slice_list 0 [OList [OInt 1]; ORef 0]).
+Proof. exact ex_shared_twice. Qed.
+Print Assumptions C01_sender_shared_twice_example.
 
 (* "equal in value and type ... same sharing/cycle structure" as graph isomorphism = equality of canonical terms: the
    read-back of the graph a term denotes is the term *)
@@ -64,17 +148,19 @@ Print Assumptions C01_canon_inverts.
 
 (* END TO END OVER HEAPS: for every heap, queue, vocabulary table (distinct indices) and packetisation, what the sender
    machine emits is rebuilt by the receiver into a graph with the sender's canonical terms (iso_to_sender).  Side
-   conditions: the descent terminates, the canonical terms pass the guard (shapes; not the known-defective region), the
+   conditions: the descent terminates, the canonical terms pass the guard wf_list_t (shapes; no Deferred into a Copyable attribute / dict key, transitively), the
    tokens fit the wire format. *)
-Theorem C01_heap_end_to_end : forall h scoped n q fuel os v fuel' toks tbl bs cs,
-  canon_of fuel h scoped n q = Some os -> wf_list_wide scoped [] [] n os = Some v ->
+Theorem C01_heap_end_to_end : forall h scoped n q fuel os fuel' toks tbl bs cs,
+  canon_of fuel h scoped n q = Some os -> wf_list_t scoped n os = true ->
   send_heap fuel' h scoped n q = Some toks ->
   NoDup (map snd tbl) -> forallb wf_token (envocab tbl toks) = true -> encode_stream (envocab tbl toks) = Ok bs ->
   List.concat cs = bs ->
   exists toks' rh rv, devocab tbl (tokens_of_chunks cs) = Some toks' /\ unslice scoped n toks' = Some (rh, rv) /\
                       iso_to_sender os n rh rv.
-Proof. exact heap_end_to_end. Qed.
+Proof. exact heap_end_to_end_t. Qed.
 Print Assumptions C01_heap_end_to_end.
+(* (partial correctness through the Deferred-level receiver: stated under the WIDER guard wf_list_wide, which makes it the
+   stronger statement: whatever is delivered, inside or outside wf_list_t, is the sender's graph) *)
 Theorem C01_heap_end_to_end_deferred_partial : forall h scoped n q fuel os v fuel' toks tbl bs cs toks' r,
   canon_of fuel h scoped n q = Some os -> wf_list_wide scoped [] [] n os = Some v ->
   send_heap fuel' h scoped n q = Some toks ->
@@ -98,13 +184,17 @@ Print Assumptions C01_deferred_refines.
 Theorem C01_deferred_firing_is_invisible : forall fuel k st st', complete fuel k st = Some st' -> erase_state st' = erase_state st.
 Proof. exact complete_erase. Qed.
 Print Assumptions C01_deferred_firing_is_invisible.
-(* (b) hence for every graph a sender can emit (the same guard as above; it contains the strict guard wf_obj of earlier rounds):
-       whatever the Deferred-level receiver delivers -- nothing pending, no placeholder left -- is exactly the denoted
-       graph.  FULL statement wanted: wf_obj_wide scoped n t = true -> dunslice scoped n (slice n t) = Some (heap_of n t, [val_of n t]).
-       Proved: the `_partial` form below (partial correctness).  Missing: progress (no refusal, nothing left pending);
-       it does NOT follow from the guard -- C01_deferred_progress_refuted -- because the guard admits terms in which two
-       tuples directly hold each other, which no Python object graph has; progress is evaluated per case by vm_compute and
-       compared with the implementation (harness, bit 16 of the correspondence code). *)
+(* (b) hence for every graph a sender can emit: whatever the Deferred-level receiver delivers -- nothing pending, no placeholder
+       left -- is exactly the denoted graph (the `_partial` theorems below; they hold under the wider old guard wf_obj_wide, which
+       is the stronger statement).
+       FULL statement wanted: wf_obj_t scoped n t = true -> dunslice scoped n (slice n t) = Some (heap_of n t, [val_of n t]).
+       MISSING: progress in general (no refusal, nothing left pending) = a simulation between ObjGuard.dsim (who waits for whom) and
+       ObjDefer.dstep (placeholders, callback lists, counters, `complete` cascades with its fuel).  What exists instead:
+       C01_guard_exact_on_small_terms (bounded-exhaustive, both directions), the Examples in C01_guard_examples, and the per-case
+       evaluation by vm_compute compared with the implementation (harness: correspondence bits 16 and 256; refused graphs must be
+       outside the guard).  Under the OLD guard progress was false (C01_deferred_progress_refuted: two tuples directly holding
+       each other, a term no Python graph has -- AND, found by review 2, Python graphs such as g1 / g4: C01_old_guard_refuted);
+       both kinds are outside wf_obj_t (C01_wait_cycle_outside_guard). *)
 Theorem C01_deferred_sound_partial : forall scoped n t r, wf_obj_wide scoped n t = true ->
   dunslice scoped n (slice n t) = Some r -> r = (heap_of n t, [val_of n t]).
 Proof. exact deferred_sound. Qed.
@@ -119,6 +209,15 @@ Print Assumptions C01_wide_guard_contains_strict.
 Theorem C01_deferred_progress_refuted : wf_obj_wide true 0 wait_cycle = true /\ dunslice true 0 (slice 0 wait_cycle) = None.
 Proof. exact progress_needs_more_than_the_guard. Qed.
 Print Assumptions C01_deferred_progress_refuted.
+Theorem C01_wait_cycle_outside_guard : wf_obj_wide true 0 wait_cycle = true /\ wf_obj_t true 0 wait_cycle = false /\
+  dunslice true 0 (slice 0 wait_cycle) = None /\
+  wf_obj_wide true 0 (OList [OTuple [ORef 1]]) = true /\ wf_obj_t true 0 (OList [OTuple [ORef 1]]) = false /\
+  doutcome true 0 (slice 0 (OList [OTuple [ORef 1]])) = 2.
+Proof. exact wait_cycle_outside. Qed.
+Print Assumptions C01_wait_cycle_outside_guard.
+Theorem C01_guard_contained_in_old : forall scoped n t, wf_obj_t scoped n t = true -> wf_obj_wide scoped n t = true.
+Proof. exact wf_obj_t_wide. Qed.
+Print Assumptions C01_guard_contained_in_old.
 (* non-vacuity of (b): A = (L,), B = (A,), L = [B] is outside the strict guard, inside the wide one, and delivered *)
 Theorem C01_deferred_example : wf_obj true 0 abl = false /\ wf_obj_wide true 0 abl = true /\
   dunslice true 0 (slice 0 abl) = Some (heap_of 0 abl, [val_of 0 abl]).
@@ -127,10 +226,10 @@ Print Assumptions C01_deferred_example.
 
 (* "integers of any magnitude ... no matter how the byte stream is split": down to bytes and back, through the
    lead's stream_roundtrip (chunk-independence of the byte-level receiver is C07) *)
-Theorem C01_bytes_roundtrip : forall scoped n t bs, wf_obj_wide scoped n t = true -> forallb wf_token (slice n t) = true ->
+Theorem C01_bytes_roundtrip : forall scoped n t bs, wf_obj_t scoped n t = true -> forallb wf_token (slice n t) = true ->
   encode_stream (slice n t) = Ok bs ->
   exists toks, decode bs = (toks, EndClean) /\ unslice scoped n toks = Some (heap_of n t, [val_of n t]).
-Proof. exact bytes_roundtrip_wide. Qed.
+Proof. exact bytes_roundtrip_t. Qed.
 Print Assumptions C01_bytes_roundtrip.
 
 (* END TO END, "no matter how the byte stream is split into packets": composition with C07.  `tokens_of_chunks cs` is what
@@ -138,11 +237,11 @@ Print Assumptions C01_bytes_roundtrip.
    independence is C07's theorem, reused) hands upward when the bytes arrive as the packets cs.  For EVERY packetisation of
    the sender's bytes the delivered graph is the sent graph. *)
 Theorem C01_end_to_end_any_chunking : forall scoped n t bs cs,
-  wf_obj_wide scoped n t = true -> forallb wf_token (slice n t) = true -> encode_stream (slice n t) = Ok bs -> List.concat cs = bs ->
+  wf_obj_t scoped n t = true -> forallb wf_token (slice n t) = true -> encode_stream (slice n t) = Ok bs -> List.concat cs = bs ->
   unslice scoped n (tokens_of_chunks cs) = Some (heap_of n t, [val_of n t]).
-Proof. exact end_to_end_any_chunking. Qed.
+Proof. exact end_to_end_any_chunking_t. Qed.
 Print Assumptions C01_end_to_end_any_chunking.
-(* the same through the Deferred-level receiver, wide guard (partial correctness as C01_deferred_sound_partial) *)
+(* the same through the Deferred-level receiver, under the wider old guard (partial correctness as C01_deferred_sound_partial) *)
 Theorem C01_end_to_end_any_chunking_deferred_partial : forall scoped n t bs cs r,
   wf_obj_wide scoped n t = true -> forallb wf_token (slice n t) = true -> encode_stream (slice n t) = Ok bs -> List.concat cs = bs ->
   dunslice scoped n (tokens_of_chunks cs) = Some r -> r = (heap_of n t, [val_of n t]).
@@ -167,10 +266,10 @@ Print Assumptions C01_keepalive_invisible_deferred.
    numbers, at any token boundaries, any number of them); however the bytes of w are split into packets -- keepalive token alone,
    glued to the bytes behind it, byte by byte -- the delivered graph is the graph that was sent; *)
 Theorem C01_keepalive_end_to_end : forall scoped n t w bs cs,
-  wf_obj_wide scoped n t = true -> strip_ka w = slice n t -> forallb wf_token w = true -> encode_stream w = Ok bs ->
+  wf_obj_t scoped n t = true -> strip_ka w = slice n t -> forallb wf_token w = true -> encode_stream w = Ok bs ->
   List.concat cs = bs ->
   unslice scoped n (tokens_of_chunks cs) = Some (heap_of n t, [val_of n t]).
-Proof. exact keepalive_end_to_end. Qed.
+Proof. exact keepalive_end_to_end_t. Qed.
 Print Assumptions C01_keepalive_end_to_end.
 Theorem C01_keepalive_end_to_end_deferred_partial : forall scoped n t w bs cs r,
   wf_obj_wide scoped n t = true -> strip_ka w = slice n t -> forallb wf_token w = true -> encode_stream w = Ok bs ->
@@ -185,9 +284,9 @@ Proof. exact strip_weave. Qed.
 Print Assumptions C01_keepalive_weave.
 (* (c) several objects / calls on one connection, and a rejected message that is being discarded: keepalive tokens move neither the
    discard depth nor the object counter, so the numbering of later references stays in step *)
-Theorem C01_keepalive_list : forall scoped n ts v w, wf_list_wide scoped [] [] n ts = Some v -> strip_ka w = slice_list n ts ->
+Theorem C01_keepalive_list : forall scoped n ts w, wf_list_t scoped n ts = true -> strip_ka w = slice_list n ts ->
   unslice scoped n w = Some (heap_list n ts, vals_list n ts).
-Proof. exact keepalive_list. Qed.
+Proof. exact keepalive_list_t. Qed.
 Print Assumptions C01_keepalive_list.
 Theorem C01_keepalive_discard : forall ts d cnt,
   discard (strip_ka ts) d cnt = let '(d', cnt', rest) := discard ts d cnt in (d', cnt', strip_ka rest).
@@ -204,17 +303,58 @@ Print Assumptions C01_vocab_transparent.
    tokens and table replacements (Banana.setOutgoingVocabulary: OPEN set-vocab (index string)* CLOSE sent unabbreviated, new
    table in force right after it); the receiver expands VOCAB tokens with the table in force and replaces its table at the
    same stream position: the object layer sees exactly the sender's plain tokens.  Hypotheses: indices of every table
-   distinct (dict(zip(words, range))), object tokens are not VOCAB tokens, no object sequence is itself OPEN "set-vocab". *)
+   distinct (dict(zip(words, range))), object tokens are not VOCAB tokens, no object sequence is itself OPEN "set-vocab", and
+   (review 2) every word of every table that is installed fits the RECEIVER's limit: tables_words_ok, translated from
+   ReplaceVocabUnslicer.valueConstraint = ByteStringConstraint(100) (gen/SlicersGen.v vocab_word_limit).  WEAKER than the property's
+   "all outgoing-vocabulary tables": outside that hypothesis the statement is false of the model and of the code
+   (C01_vocab_switch_long_word_refuted; finding oracle/vocab-switch/word-longer-than-receiver-limit). *)
 Theorem C01_vocab_switch_in_band : forall items cur fuel,
-  NoDup (map snd cur) -> tables_nodup items -> items_ok items = true ->
+  NoDup (map snd cur) -> tables_nodup items -> items_ok items = true -> tables_words_ok items = true ->
   (List.length (sender_wire cur items) <= fuel)%nat ->
   receiver_view fuel cur (sender_wire cur items) = Some (plain_tokens items).
 Proof. exact vocab_switch_in_band. Qed.
 Print Assumptions C01_vocab_switch_in_band.
+(* REFUTED without the word-length hypothesis (FINDING): table [tuple] in force, [1] sent, setOutgoingVocabulary([b"list", b"x"*101]),
+   [2] sent.  The receiver raises a Violation on the 101-byte word, drops the set-vocab sequence and keeps [tuple]; the sender
+   abbreviates "list" with its new table; the receiver expands the index with its old one: the list [2] arrives as the tuple (2,)
+   (receiver_view_v = the receiver with that Violation handling; replayed on the code).  A 100-byte word is inside the guard. *)
+Theorem C01_vocab_switch_long_word_refuted :
+  let cur := [(w_tuple, 0)] in
+  let items := long_word_items 101 in
+  items_ok items = true /\ tables_words_ok items = false /\
+  receiver_view 100 cur (sender_wire cur items) = None /\
+  (exists toks, receiver_view_v 100 cur (sender_wire cur items) = Some (toks, 1) /\
+     unslice true 0 toks = Some ([(0, {| n_kind := CList; n_items := [VInt 1] |}); (2, {| n_kind := CTuple; n_items := [VInt 2] |})],
+                                 [VPtr 0; VPtr 2])) /\
+  tables_words_ok (long_word_items 100) = true /\
+  (exists toks, receiver_view 100 cur (sender_wire cur (long_word_items 100)) = Some toks /\
+     unslice true 0 toks = Some ([(0, {| n_kind := CList; n_items := [VInt 1] |}); (2, {| n_kind := CList; n_items := [VInt 2] |})],
+                                 [VPtr 0; VPtr 2])).
+Proof. exact vocab_switch_long_word_refuted. Qed.
+Print Assumptions C01_vocab_switch_long_word_refuted.
 
-Theorem C01_roundtrip_any_vocab : forall scoped n t tbl, wf_obj_wide scoped n t = true -> NoDup (map snd tbl) ->
+(* "objects separated by table replacements are delivered" (review 2: was only evaluated per case).  l is ANY sequence of objects and
+   table replacements at top level; the object layer (Obj.step with the KVocab frame of ReplaceVocabUnslicer: INT / STRING children with
+   the word limit, CLOSE hands the root nothing, the sequence takes one OPEN number) rebuilds every object, numbered as the sender
+   numbered it.  Guard wf_segs = every object inside the guard of the delivery theorems in the context the earlier ones left (the
+   storage root is one scope: a later object may refer to an earlier one), table words within the limit, nothing pending at the end. *)
+Theorem C01_objects_between_table_switches : forall scoped n l, wf_segs scoped [] [] n l = true ->
+  unslice scoped n (plain_tokens (seg_items n l)) = Some (seg_heap n l, seg_vals n l).
+Proof. exact segs_unslice. Qed.
+Print Assumptions C01_objects_between_table_switches.
+(* ... composed with the in-band switch: sender queue -> wire (abbreviated with the table in force, tables replaced in band) ->
+   receiver's expansion with ITS table in force -> object layer -> the graphs of the terms *)
+Theorem C01_vocab_switch_objects_delivered : forall scoped n l cur fuel,
+  NoDup (map snd cur) -> tables_nodup (seg_items n l) -> items_ok (seg_items n l) = true -> wf_segs scoped [] [] n l = true ->
+  (List.length (sender_wire cur (seg_items n l)) <= fuel)%nat ->
+  exists toks, receiver_view fuel cur (sender_wire cur (seg_items n l)) = Some toks /\
+               unslice scoped n toks = Some (seg_heap n l, seg_vals n l).
+Proof. exact vocab_switch_objects_delivered. Qed.
+Print Assumptions C01_vocab_switch_objects_delivered.
+
+Theorem C01_roundtrip_any_vocab : forall scoped n t tbl, wf_obj_t scoped n t = true -> NoDup (map snd tbl) ->
   exists toks, devocab tbl (envocab tbl (slice n t)) = Some toks /\ unslice scoped n toks = Some (heap_of n t, [val_of n t]).
-Proof. exact roundtrip_any_vocab_wide. Qed.
+Proof. exact roundtrip_any_vocab_t. Qed.
 Print Assumptions C01_roundtrip_any_vocab.
 
 (* "Sharing is preserved within one call and never leaks between two calls": (guard) a scoped sequence admitted by the guard
